@@ -196,6 +196,7 @@ func ruleC20(r *Report) {
 	}
 
 	checkAtomicSections(r, p, idpFns, guard)
+	checkStaleWriteBack(r, p, idpFns, guard)
 	order := map[string]map[string]string{} // held -> acquired -> where
 	for _, fn := range idpFns {
 		f := la.Facts(fn)
@@ -622,6 +623,85 @@ func checkAtomicSections(r *Report, p *Prog, fns []*ssa.Function, guard map[stri
 				}
 			}
 			r.Check(split == "", rule, fmt.Sprintf("%s: accesses to %s form one critical section", p.FnName(fn), key), p.Pos(fn.Pos()), "no release of "+g.Mutex+" between two accesses", fmt.Sprintf("%s is released at %s between two accesses to %s: the operation is a check-then-act over two critical sections and another request can interleave", g.Mutex, split, key))
+		}
+	}
+}
+
+// checkStaleWriteBack (C20.atomic): what is stored into a guarded field under its write lock does not derive from a read
+// of that same field made in an earlier critical section (before the lock was taken, or inside a helper that takes and
+// releases the lock itself): such a write installs a stale copy and loses the updates made in between.
+func checkStaleWriteBack(r *Report, p *Prog, fns []*ssa.Function, guard map[string]guardEntry) {
+	rule := "C20.atomic"
+	keyOf := func(fa *ssa.FieldAddr) string {
+		if n := namedOf(fa.X.Type()); n != nil {
+			return n.Obj().Name() + "." + fieldName(fa.X.Type(), fa.Field)
+		}
+		return ""
+	}
+	dominatesInstr := func(x, y ssa.Instruction) bool {
+		if x.Block() == y.Block() {
+			return instrBefore(x.Block(), x, y)
+		}
+		return x.Block().Dominates(y.Block())
+	}
+	for _, fn := range fns {
+		var rg *Region
+		for _, b := range fn.Blocks {
+			for _, in := range b.Instrs {
+				st, ok := in.(*ssa.Store)
+				if !ok {
+					continue
+				}
+				fa, ok := st.Addr.(*ssa.FieldAddr)
+				if !ok || isFreshLocal(fa.X) {
+					continue
+				}
+				key := keyOf(fa)
+				g, ok := guard[key]
+				if !ok {
+					continue
+				}
+				// the acquisition that opens the critical section of this store
+				var acq ssa.Instruction
+				for _, b2 := range fn.Blocks {
+					for _, i2 := range b2.Instrs {
+						if c, ok := i2.(*ssa.Call); ok {
+							if op, ok := lockOpOf(&c.Call); ok && op.Acquire && op.Lock == g.Mutex && dominatesInstr(i2, in) {
+								if acq == nil || dominatesInstr(acq, i2) {
+									acq = i2
+								}
+							}
+						}
+					}
+				}
+				if acq == nil {
+					continue // (an unguarded write is C20.guarded's finding)
+				}
+				if rg == nil {
+					rg = NewRegion(p, fn, 2)
+				}
+				stale := ""
+				for _, o := range rg.Origins(RV{V: st.Val, C: rg.top}) {
+					ld, ok := o.V.(*ssa.UnOp)
+					if !ok || ld.Op != token.MUL {
+						continue
+					}
+					lfa, ok := ld.X.(*ssa.FieldAddr)
+					if !ok || keyOf(lfa) != key {
+						continue
+					}
+					site := rg.SiteIn(rg.top, RI{ld, o.C})
+					if site == nil || !dominatesInstr(acq, site) {
+						at := p.InstrPos(ld)
+						if site != nil {
+							at = p.InstrPos(site)
+						}
+						stale = at
+					}
+				}
+				cons := fmt.Sprintf("%s: what is written to %s was not read from it in an earlier critical section", p.FnName(fn), key)
+				r.Check(stale == "", rule, cons, p.InstrPos(in), "the stored value does not derive from a read of the field outside this critical section", fmt.Sprintf("the value stored into %s derives from a read of %s made at %s, before %s was acquired for this write: two requests that both read the old value each install their own copy and one update is lost", key, key, stale, g.Mutex))
+			}
 		}
 	}
 }
